@@ -134,6 +134,7 @@ Theorem c06_pinned_no_reset_refuted :
 Proof.
   exists [[1;7;1;5]]%N, (mk [[1;9;9;9]]%N 4), [EConnect; EDeliver]. vm_compute. repeat split; discriminate.
 Qed.
+Print Assumptions c06_pinned_no_reset_refuted.
 
 (* premature caught-up: a follower that is a true prefix of the leader's log (2 of 3 records), small log:
    the stale aofsz makes it report caught up after ONE of the three streamed records *)
@@ -146,6 +147,7 @@ Proof.
   split; [exists [[1;7;3;7]]%N; repeat split |].
   vm_compute. repeat split. intros [extra H]. discriminate.
 Qed.
+Print Assumptions c06_pinned_premature_caughtup_refuted.
 
 (* "aof fully intact" although only the first block matched: a true-prefix follower whose first block ends
    on a record boundary resumes at that boundary WITHOUT truncating (checksumsz scaled to 4 bytes) *)
@@ -153,6 +155,7 @@ Theorem c06_pinned_intact_at_boundary_refuted :
   exists f rest, fst (check_some bytes idm bytes_eqb 4 Pinned f (flen f) (f ++ rest)) = CSIntact 4 /\ 4 < flen f /\
                  fst (check_some bytes idm bytes_eqb 4 Repaired f (flen f) (f ++ rest)) = CSTruncate 4 1.
 Proof. exists [[1;7;1;5]; [4;7]]%N, [[1;7;3;7]]%N. vm_compute. repeat split. Qed.
+Print Assumptions c06_pinned_intact_at_boundary_refuted.
 
 (* ---- open finding (also in the repaired code): the check compares only some blocks.  Two logs of equal
         length that differ in a block that is not probed are declared "fully intact" (checksumsz scaled to 4) ---- *)
@@ -163,3 +166,4 @@ Proof.
   exists [[1;7;1;5]; [1;7;2;6]; [1;7;3;7]]%N, [[1;7;1;5]; [1;7;2;9]; [1;7;3;7]]%N.
   vm_compute. repeat split; discriminate.
 Qed.
+Print Assumptions c06_blind_spot_refuted.
